@@ -45,7 +45,7 @@ def gen_case(streams, tier):
     for _ in range(g.choice([1, 1, 2])):
         cfg = gen.make_cfg(nets=(2, 9), classes=g.choice([['bit', 'small'], ['small']]),
                            max_mul_width=4, mem_wide_aw=0.0, mem_aw=(1, 3), rom_aw_max=3,
-                           regs=(0, 3), mems=(0, 1), roms=(0, 1), max_concat=16, trunc=False)
+                           regs=(0, 3), mems=(0, 2), roms=(0, 1), max_concat=16, trunc=False)
         script = gen.gen_script(g, cfg)
         designs.append({'script': script,
                         'cycles': gen.gen_inputs(streams['inputs'], script, 5)})
@@ -191,6 +191,13 @@ def run(case, res):
             s = transforms.sanity(result)
             if s:
                 return Violation('result', 'not_well_formed', {'op': kind, 'exc': s}, tags)
+            mm = getattr(result, 'mem_map', None)
+            if kind in ('synth', 'copy') and mm:
+                for src_m, new_m in mm.items():
+                    if new_m.id != src_m.id or new_m.name != src_m.name or \
+                            new_m.bitwidth != src_m.bitwidth or new_m.addrwidth != src_m.addrwidth:
+                        return Violation('result', 'mem_map_pairs_memory_with_another_memory',
+                                         {'op': kind, 'source': src_m.name, 'mapped_to': new_m.name}, tags)
             # the name index of the result must lead to the memories its nets use (that is how
             # a user obtains them for memory_value_map / inspect_mem)
             for net in result.logic:
